@@ -125,7 +125,7 @@ Theorem C16_not_latin1_rejected :
 Proof. exact loads_not_latin1. Qed.
 Print Assumptions C16_not_latin1_rejected.
 
-(* --- a token issued under another secret / salt / digest --- *)
+(* --- a token issued under another KEY / digest (for (salt, secret) PAIRS see the last section) --- *)
 Theorem C16_other_config :
   forall (V : Type) (ser : V -> bytes) (deser : bytes -> res V)
          (mac1 mac2 : bytes -> bytes -> bytes) (d2 : nat) (k1 k2 : bytes),
@@ -307,3 +307,38 @@ Proof. discriminate. Qed.
 Example C16_concrete_roundtrip :
   signed_loads nat toy_mac 1 toy_deser [7; 7]%N (signed_dumps nat toy_mac toy_ser [7; 7]%N 5%nat) = Ok 5%nat.
 Proof. vm_compute. reflexivity. Qed.
+
+(* ===== (salt, secret) PAIRS versus KEYS =====
+   C16_other_config / C16_other_key_rejected speak about another KEY OCTET STRING that gives another TAG
+   (hypothesis [mac2 k2 (ser v) <> mac1 k1 (ser v)]).  They do NOT say that a token issued under a different
+   (salt, secret) pair is rejected, and that pair-level statement is false for this code: the key is the plain
+   concatenation of the encoded salt and secret, handed to HMAC.  The witnesses below (and the HMAC key
+   normalisation covered abstractly by C16_equivalent_keys_accepted) are known findings of the real code. *)
+Theorem C16_pair_level_refuted_boundary :
+  exists salt1 secret1 salt2 secret2 key,
+    (salt1, secret1) <> (salt2, secret2) /\
+    salted_secret salt1 secret1 = Some key /\ salted_secret salt2 secret2 = Some key /\
+    forall (V : Type) (mac : bytes -> bytes -> bytes) (dsize : nat) (ser : V -> bytes) (deser : bytes -> res V),
+      (forall k m, length (mac k m) = dsize) -> (forall v, deser (ser v) = Ok v) ->
+      (forall k m, bytesP (mac k m)) -> (forall v, bytesP (ser v)) ->
+      forall v, signed_loads V mac dsize deser key (signed_dumps V mac ser key v) = Ok v.
+Proof. exact pair_level_refuted_boundary. Qed.
+Print Assumptions C16_pair_level_refuted_boundary.
+
+Theorem C16_pair_level_refuted_encoding :
+  exists salt1 salt2 secret key,
+    salt1 <> salt2 /\
+    salted_secret salt1 secret = Some key /\ salted_secret salt2 secret = Some key.
+Proof. exact pair_level_refuted_encoding. Qed.
+Print Assumptions C16_pair_level_refuted_encoding.
+
+(* keys the mac cannot tell apart (HMAC: trailing NULs; a long key and its hash) are one key *)
+Theorem C16_equivalent_keys_accepted :
+  forall (V : Type) (mac : bytes -> bytes -> bytes) (dsize : nat) (ser : V -> bytes)
+         (deser : bytes -> res V) (k1 k2 : bytes),
+    (forall k m, length (mac k m) = dsize) -> (forall v, deser (ser v) = Ok v) ->
+    (forall k m, bytesP (mac k m)) -> (forall v, bytesP (ser v)) ->
+    (forall m, mac k1 m = mac k2 m) ->
+    forall v, signed_loads V mac dsize deser k2 (signed_dumps V mac ser k1 v) = Ok v.
+Proof. exact equivalent_keys_accepted. Qed.
+Print Assumptions C16_equivalent_keys_accepted.
